@@ -1,5 +1,356 @@
-//! Seeded random driver (DRIVE): larger inputs and longer histories than TLC enumerates.
-pub fn main(_args: &[String]) {
-    eprintln!("drive: not built yet");
-    std::process::exit(2);
+//! Seeded random driver (DRIVE): longer histories and larger inputs than TLC enumerates.
+//! It records every public call with its arguments and what came back, in the same event format
+//! as `exec`; there are no predictions - the specification alone decides (spec/Trace.tla).
+//!
+//!   lax     histories of builder calls on one lax diagram (the judge tracks the state itself:
+//!           events carry no pre-state, only the logged post-state, used to re-synchronise)
+//!   strict  a workbench: a pool of strict diagrams; results of operations are fed back as inputs
+//!   arrays  array / finite-function / segmented-array primitives on larger random arguments
+use crate::codec::*;
+use crate::rng::Rng;
+use crate::{dispatch, guarded, lax_ops};
+use serde_json::{json, Value};
+use std::io::Write;
+
+fn emit(out: &mut impl Write, ev: Value) {
+    serde_json::to_writer(&mut *out, &ev).unwrap();
+    out.write_all(b"\n").unwrap();
+}
+
+fn profile() -> &'static str {
+    if cfg!(debug_assertions) {
+        "debug"
+    } else {
+        "release"
+    }
+}
+
+fn rand_seq(r: &mut Rng, n: usize, maxlen: usize) -> Vec<usize> {
+    if n == 0 {
+        return vec![];
+    }
+    let len = r.below(maxlen + 1);
+    (0..len).map(|_| r.below(n)).collect()
+}
+
+// ------------------------------------------------------------------ lax histories
+
+fn lax_state_of(post: &Value) -> (usize, usize, usize) {
+    (arr(&post["nodes"]).len(), arr(&post["edges"]).len(), arr(&post["ql"]).len())
+}
+
+fn drive_lax(out: &mut impl Write, r: &mut Rng, budget: usize, props: &Value) {
+    let empty = lax_out(&LaxOH::empty());
+    let mut produced = 0;
+    let mut hist = 0u64;
+    while produced < budget {
+        hist += 1;
+        let mut st = empty.clone();
+        emit(out, json!({"op": "lax.reset", "hist": hist, "props": props, "args": {}, "backend": "vec", "profile": profile(),
+                          "obs": {"tag": "val", "val": 0, "post": empty}}));
+        produced += 1;
+        let steps = r.range(20, 120);
+        for _ in 0..steps {
+            let (n, e, q) = lax_state_of(&st);
+            let choice = r.below(100);
+            let (op, args): (&str, Value) = if n < 2 || (choice < 18 && n < 8) {
+                ("lax.new_node", json!({"label": r.below(2)}))
+            } else if choice < 30 && e < 6 {
+                ("lax.new_edge", json!({"x": r.below(3), "s": rand_seq(r, n, 3), "t": rand_seq(r, n, 3)}))
+            } else if choice < 36 && e < 6 && n < 6 {
+                ("lax.new_operation", json!({"x": r.below(3), "a": rand_seq(r, 2, 2), "b": rand_seq(r, 2, 2)}))
+            } else if choice < 42 && e > 0 && n < 8 {
+                ("lax.add_edge_source", json!({"e": r.below(e), "label": r.below(2)}))
+            } else if choice < 48 && e > 0 && n < 8 {
+                ("lax.add_edge_target", json!({"e": r.below(e), "label": r.below(2)}))
+            } else if choice < 60 && q < 4 {
+                ("lax.unify", json!({"v": r.below(n), "w": r.below(n)}))
+            } else if choice < 68 {
+                // valid, duplicated and (rarely) out-of-range identifiers
+                let mut ids = rand_seq(r, n, 3);
+                if r.coin(1, 12) {
+                    ids.push(n + r.below(2));
+                }
+                ("lax.delete_nodes", json!({"ids": ids}))
+            } else if choice < 73 && e > 0 {
+                let mut ids = rand_seq(r, e, 2);
+                if r.coin(1, 12) {
+                    ids.push(e);
+                }
+                ("lax.delete_edges", json!({"ids": ids}))
+            } else if choice < 83 {
+                ("lax.quotient", json!({}))
+            } else if choice < 90 {
+                ("lax.set_interfaces", json!({"s": rand_seq(r, n, 3), "t": rand_seq(r, n, 3)}))
+            } else if choice < 94 {
+                ("lax.map_nodes", json!({"tbl": [1, 0]}))
+            } else if choice < 97 && n <= 5 && e <= 4 {
+                let g = json!({"nodes": [0, 1], "edges": [2], "adj": [{"s": [0], "t": [1, 1]}], "ql": [0], "qr": [0], "sources": [1], "targets": [0, 0]});
+                ("lax.tensor_assign", json!({"g": g}))
+            } else if n <= 5 && e <= 4 {
+                // (hypergraph-only deletion is not driven: it leaves the interfaces of the enclosing
+                //  open hypergraph stale by design, i.e. it leaves the domain of well-formed diagrams)
+                let g = json!({"nodes": [1], "edges": [], "adj": [], "ql": [], "qr": [], "sources": [0, 0], "targets": []});
+                ("lax.append", json!({"g": g}))
+            } else {
+                ("lax.is_strict", json!({}))
+            };
+            // the harness supplies the pre-state to the interpreter but does not log it: the judge
+            // follows the history from the state it tracks
+            let mut call_args = args.clone();
+            call_args["pre"] = st.clone();
+            let obs = if op == "lax.set_interfaces" {
+                // interfaces are public fields: plain assignment, no library call involved
+                let mut f = lax_in(&st);
+                f.sources = vec_us(&args["s"]).into_iter().map(open_hypergraphs::lax::NodeId).collect();
+                f.targets = vec_us(&args["t"]).into_iter().map(open_hypergraphs::lax::NodeId).collect();
+                json!({"tag": "val", "val": 0, "post": lax_out(&f)})
+            } else {
+                guarded(|| lax_ops::run(op, &call_args))
+            };
+            if let Some(p) = obs.get("post") {
+                st = p.clone();
+            }
+            emit(out, json!({"op": op, "hist": hist, "props": props, "args": args, "backend": "vec", "profile": profile(), "obs": obs}));
+            produced += 1;
+            if produced >= budget {
+                break;
+            }
+        }
+    }
+}
+
+// ------------------------------------------------------------------ strict workbench
+
+fn rand_diagram(r: &mut Rng, maxn: usize, maxe: usize, src_type: Option<&Vec<i64>>) -> Value {
+    // plain description, then the strict representation (sizes + values), through JSON
+    let mut n = r.below(maxn + 1);
+    let mut w: Vec<i64> = (0..n).map(|_| r.below(2) as i64).collect();
+    let s: Vec<usize> = match src_type {
+        Some(ty) => {
+            // nodes with the required labels (appended when missing)
+            let mut s = vec![];
+            for l in ty {
+                let cands: Vec<usize> = (0..n).filter(|i| w[*i] == *l).collect();
+                if cands.is_empty() || r.coin(1, 3) {
+                    w.push(*l);
+                    s.push(n);
+                    n += 1;
+                } else {
+                    s.push(*r.pick(&cands));
+                }
+            }
+            s
+        }
+        None => rand_seq(r, n, 3),
+    };
+    let t = rand_seq(r, n, 3);
+    let ne = if n == 0 { r.below(2) } else { r.below(maxe + 1) };
+    let mut ssz = vec![];
+    let mut sval = vec![];
+    let mut tsz = vec![];
+    let mut tval = vec![];
+    let mut x = vec![];
+    for _ in 0..ne {
+        let es = rand_seq(r, n, 2);
+        let et = rand_seq(r, n, 2);
+        ssz.push(es.len());
+        tsz.push(et.len());
+        sval.extend(es);
+        tval.extend(et);
+        x.push(r.below(2));
+    }
+    json!({
+        "s": {"table": s, "target": n}, "t": {"table": t, "target": n},
+        "h": {"s": {"sources": {"table": ssz, "target": sval.len() + 1}, "values": {"table": sval, "target": n}},
+              "t": {"sources": {"table": tsz, "target": tval.len() + 1}, "values": {"table": tval, "target": n}},
+              "w": w, "x": x}
+    })
+}
+
+fn size_of(d: &Value) -> (usize, usize) {
+    (arr(&d["h"]["w"]).len(), arr(&d["h"]["x"]).len())
+}
+fn tgt_type(d: &Value) -> Vec<i64> {
+    let w = vec_o(&d["h"]["w"]);
+    vec_us(&d["t"]["table"]).iter().map(|i| w[*i]).collect()
+}
+
+fn drive_strict(out: &mut impl Write, r: &mut Rng, budget: usize, props: &Value, backend: &str) {
+    let mut pool: Vec<Value> = (0..6).map(|_| rand_diagram(r, 3, 2, None)).collect();
+    let mut produced = 0;
+    while produced < budget {
+        let choice = r.below(100);
+        let f = r.pick(&pool).clone();
+        let (op, args): (&str, Value) = if choice < 30 {
+            // a partner that composes (type built to match), or sometimes an arbitrary one
+            let g = if r.coin(5, 6) { rand_diagram(r, 3, 2, Some(&tgt_type(&f))) } else { r.pick(&pool).clone() };
+            ("strict.compose", json!({"f": f, "g": g}))
+        } else if choice < 45 {
+            ("strict.tensor", json!({"f": f, "g": r.pick(&pool).clone()}))
+        } else if choice < 50 {
+            ("strict.dagger", json!({"f": f}))
+        } else if choice < 56 {
+            ("strict.layer", json!({"f": f}))
+        } else if choice < 60 {
+            ("strict.layered_operations", json!({"f": f}))
+        } else if choice < 66 {
+            ("strict.is_monogamous", json!({"f": f}))
+        } else if choice < 72 {
+            ("strict.is_acyclic", json!({"f": f}))
+        } else if choice < 78 {
+            ("functor.identity", json!({"f": f}))
+        } else if choice < 84 {
+            ("lax.roundtrip_strict", json!({"f": f}))
+        } else if choice < 90 {
+            ("law.unit", json!({"f": f}))
+        } else if choice < 95 {
+            let g = rand_diagram(r, 2, 1, Some(&tgt_type(&f)));
+            ("law.dagger_compose", json!({"f": f, "g": g}))
+        } else {
+            // replace a pool entry by a fresh random diagram
+            let i = r.below(pool.len());
+            pool[i] = rand_diagram(r, 4, 3, None);
+            continue;
+        };
+        let obs = dispatch(op, backend, &args);
+        // feed results back as inputs (bounded size, so that the judge's isomorphism search stays cheap)
+        if obs["tag"] == "some" || obs["tag"] == "val" {
+            let v = &obs["val"];
+            if v.get("h").is_some() {
+                let (n, e) = size_of(v);
+                if n <= 8 && e <= 6 && arr(&v["s"]["table"]).len() <= 6 && arr(&v["t"]["table"]).len() <= 6 {
+                    if pool.len() < 24 {
+                        pool.push(v.clone());
+                    } else {
+                        let i = r.below(pool.len());
+                        pool[i] = v.clone();
+                    }
+                }
+            }
+        }
+        emit(out, json!({"op": op, "props": props, "args": args, "backend": backend, "profile": profile(), "obs": obs}));
+        produced += 1;
+    }
+}
+
+// ------------------------------------------------------------------ arrays, finite functions
+
+fn rand_arr(r: &mut Rng, maxlen: usize, maxv: usize) -> Vec<usize> {
+    let len = r.below(maxlen + 1);
+    (0..len).map(|_| r.below(maxv + 1)).collect()
+}
+
+fn drive_arrays(out: &mut impl Write, r: &mut Rng, budget: usize, props: &Value, backend: &str) {
+    let mut produced = 0;
+    while produced < budget {
+        let a = rand_arr(r, 9, 6);
+        let n = a.len();
+        let choice = r.below(16);
+        let (op, args): (&str, Value) = match choice {
+            0 => ("arr.gather", json!({"a": a, "idx": rand_seq(r, n, 9)})),
+            1 if n > 0 => ("arr.scatter", json!({"a": a, "idx": (0..n).map(|_| r.below(8)).collect::<Vec<_>>(), "n": 8})),
+            2 => ("arr.argsort", json!({"a": a})),
+            3 => ("arr.sparse_bincount", json!({"a": a})),
+            4 => ("arr.cumulative_sum", json!({"a": a})),
+            5 => ("arr.bincount", json!({"a": a, "size": 7})),
+            6 => ("arr.zero", json!({"a": a})),
+            7 => {
+                let b: Vec<usize> = (0..n).map(|_| r.below(7)).collect();
+                ("arr.connected_components", json!({"src": a, "tgt": b, "n": 7}))
+            }
+            8 => {
+                let sizes = rand_arr(r, 5, 3);
+                let total: usize = sizes.iter().sum();
+                let x: Vec<usize> = (0..total).map(|_| r.below(7)).collect();
+                ("arr.segmented_sum", json!({"sizes": sizes, "x": x}))
+            }
+            9 => ("arr.segmented_arange", json!({"sizes": rand_arr(r, 5, 3)})),
+            10 => {
+                let counts = rand_arr(r, 5, 3);
+                let x: Vec<usize> = (0..counts.len()).map(|_| r.below(7)).collect();
+                ("arr.repeat", json!({"counts": counts, "x": x}))
+            }
+            11 => {
+                let f = json!({"table": a, "target": 7});
+                let g = json!({"table": (0..n).map(|_| r.below(7)).collect::<Vec<_>>(), "target": 7});
+                ("ff.coequalizer", json!({"f": f, "g": g}))
+            }
+            12 => {
+                let s = rand_arr(r, 5, 3);
+                let k = s.len();
+                let tot: usize = s.iter().sum();
+                ("ff.injections", json!({"s": {"table": s, "target": tot + 1}, "a": {"table": rand_seq(r, k, 6), "target": k}}))
+            }
+            13 => {
+                let b = r.below(5);
+                let aa = r.below(5);
+                ("ff.transpose", json!({"a": aa, "b": b}))
+            }
+            14 => {
+                // flatmap of two random segmented arrays (composable by construction)
+                let bs = rand_arr(r, 4, 3);
+                let btot: usize = bs.iter().sum();
+                let bvals: Vec<usize> = (0..btot).map(|_| r.below(5)).collect();
+                let asz = rand_arr(r, 4, 3);
+                let atot: usize = asz.iter().sum();
+                if bs.is_empty() && atot > 0 {
+                    continue;
+                }
+                let avals: Vec<usize> = (0..atot).map(|_| r.below(bs.len().max(1))).collect();
+                ("ic.flatmap", json!({"a": {"sources": {"table": asz, "target": atot + 1}, "values": {"table": avals, "target": bs.len()}},
+                                      "b": {"sources": {"table": bs, "target": btot + 1}, "values": {"table": bvals, "target": 5}}}))
+            }
+            _ => {
+                let sizes = rand_arr(r, 4, 3);
+                let tot: usize = sizes.iter().sum();
+                let vals: Vec<usize> = (0..tot).map(|_| r.below(5)).collect();
+                let k = sizes.len();
+                ("ic.map_indexes_ff", json!({"ic": {"sources": {"table": sizes, "target": tot + 1}, "values": {"table": vals, "target": 5}},
+                                             "x": {"table": rand_seq(r, k, 5), "target": k}}))
+            }
+        };
+        let obs = dispatch(op, backend, &args);
+        emit(out, json!({"op": op, "props": props, "args": args, "backend": backend, "profile": profile(), "obs": obs}));
+        produced += 1;
+    }
+}
+
+pub fn main(args: &[String]) {
+    let mut machine = "lax".to_string();
+    let mut seed = 1u64;
+    let mut budget = 1000usize;
+    let mut props = json!([]);
+    let mut backend = "vec".to_string();
+    let mut i = 0;
+    while i < args.len() {
+        match args[i].as_str() {
+            "--machine" => machine = args[i + 1].clone(),
+            "--seed" => seed = args[i + 1].parse().unwrap_or(1),
+            "--budget" => budget = args[i + 1].parse().unwrap_or(1000),
+            "--props" => props = Value::Array(args[i + 1].split(',').map(|s| json!(s)).collect()),
+            "--backend" => backend = args[i + 1].clone(),
+            _ => {
+                eprintln!("drive: unknown argument {}", args[i]);
+                std::process::exit(2);
+            }
+        }
+        i += 2;
+    }
+    let stdout = std::io::stdout();
+    let mut out = std::io::BufWriter::new(stdout.lock());
+    let mut r = Rng::new(seed ^ (machine.len() as u64 * 7919));
+    if backend == "adv" {
+        crate::adv::set_seed(seed);
+    }
+    match machine.as_str() {
+        "lax" => drive_lax(&mut out, &mut r, budget, &props),
+        "strict" => drive_strict(&mut out, &mut r, budget, &props, &backend),
+        "arrays" => drive_arrays(&mut out, &mut r, budget, &props, &backend),
+        _ => {
+            eprintln!("drive: unknown machine {}", machine);
+            std::process::exit(2);
+        }
+    }
+    out.flush().unwrap();
 }
